@@ -44,7 +44,7 @@ Theorem C05_vending_reserved_kinds : forall o,
   | OMint _ _ _ _ | OPurge | OShuffle _ => False
   | _ => True
   end.
-Proof. intros o. destruct o; cbn; intuition discriminate. Qed.
+Proof. exact admin_op_kinds. Qed.
 
 (* the admin is fixed at creation: no successful call of any kind changes it *)
 Theorem C05_vending_admin_never_changes : forall vr s e fp wv o s' msgs,
@@ -223,7 +223,7 @@ Theorem C05_collection_freezes_are_forever : forall calls k s,
      match run_auth (AColl k s) calls with AColl _ s' => c_frozen s' = true | _ => False end) /\
   (c_meta_frozen s = true ->
      match run_auth (AColl k s) calls with AColl _ s' => c_meta_frozen s' = true | _ => False end).
-Proof. intros calls k s. exact (conj (coll_info_frozen_forever calls k s) (coll_metadata_frozen_forever calls k s)). Qed.
+Proof. exact coll_freezes_forever. Qed.
 
 (* ---- collections: tokens ---- *)
 (* a token moves or burns only for its owner, a spender the owner approved, or an
@@ -257,10 +257,7 @@ Theorem C05_whitelist_changes_only_for_admins : forall w s sender,
   (forall k, k <> WIncreaseMemberLimit -> wl_step w s sender (WOp k) = Err) /\
   (forall l, wl_step w s sender (WUpdateAdmins l) = Err) /\
   wl_step w s sender WFreeze = Err.
-Proof.
-  intros w s sender H. destruct (wl_admin_only w s sender H) as (A & B & C).
-  split; [ | exact (conj B C) ]. intros k Hk. apply A. destruct k; try reflexivity. contradiction Hk. reflexivity.
-Qed.
+Proof. exact wl_changes_only_for_admins. Qed.
 
 (* admin-list changes never once frozen — for anyone, admins included *)
 Theorem C05_whitelist_admin_list_frozen : forall w s sender,
@@ -302,9 +299,7 @@ Theorem C05_splits_admin_changes_only_by_admin : forall s sender m s',
   (splits_step s sender m = Ok s' ->
    sp_members s' = sp_members s /\
    (sp_admin s' <> sp_admin s -> sp_admin s = Some sender /\ exists n, m = SUpdateAdmin n /\ sp_admin s' = n)).
-Proof.
-  intros s sender m s'. split; [ intros n H; exact (splits_update_admin_auth s sender n H) | exact (splits_step_frame s sender m s') ].
-Qed.
+Proof. exact splits_admin_changes_only_by_admin. Qed.
 
 (* ---- airdrop, instantiation, refusals ---- *)
 Theorem C05_airdrop_claim_only_signed_wallet : forall env sender w,
@@ -388,7 +383,43 @@ Example C05_ex_splits :
 Proof. vm_compute. reflexivity. Qed.
 
 Print Assumptions C05_vending_reserved_handlers_reject_non_admin.
+Print Assumptions C05_vending_reserved_kinds.
+Print Assumptions C05_vending_admin_never_changes.
+Print Assumptions C05_vending_admin_never_changes_history.
 Print Assumptions C05_vending_non_admin_rejected_in_every_reachable_state.
-Print Assumptions C05_collection_principals_move_only_by_their_owner.
-Print Assumptions C05_whitelist_frozen_forever.
+Print Assumptions C05_minter_reserved_handlers_table.
+Print Assumptions C05_minter_reserved_only_admin.
+Print Assumptions C05_base_minter_only_collection_creator.
+Print Assumptions C05_minter_execute_keeps_admin_status_params.
+Print Assumptions C05_factory_execute_keeps_params.
+Print Assumptions C05_no_history_of_user_messages_changes_params_or_status.
+Print Assumptions C05_sudo_message_through_execute_rejected.
+Print Assumptions C05_collection_mint_and_trading_time_only_minter.
+Print Assumptions C05_collection_accept_only_proposed_minter.
+Print Assumptions C05_ownership_actions.
+Print Assumptions C05_ownership_after_handover.
+Print Assumptions C05_lapsed_offer_cannot_be_accepted.
 Print Assumptions C05_renounced_minter_role_is_gone_forever.
+Print Assumptions C05_collection_info_freeze_metadata_only_creator.
+Print Assumptions C05_collection_principals_move_only_by_their_owner.
+Print Assumptions C05_creator_after_handover.
+Print Assumptions C05_frozen_collection_info_rejects_everyone.
+Print Assumptions C05_frozen_token_metadata_rejects_everyone.
+Print Assumptions C05_collection_freezes_are_forever.
+Print Assumptions C05_token_moves_only_for_holder_or_approved.
+Print Assumptions C05_token_approvals_only_for_holder_or_operator.
+Print Assumptions C05_sg721_nt_message_set.
+Print Assumptions C05_whitelist_changes_only_for_admins.
+Print Assumptions C05_whitelist_admin_list_frozen.
+Print Assumptions C05_whitelist_frozen_forever.
+Print Assumptions C05_whitelist_principals_move_only_by_admins.
+Print Assumptions C05_splits_distribute_exactly_for.
+Print Assumptions C05_splits_distribute_rejected_otherwise.
+Print Assumptions C05_splits_admin_changes_only_by_admin.
+Print Assumptions C05_airdrop_claim_only_signed_wallet.
+Print Assumptions C05_instantiate_requires_contract_sender.
+Print Assumptions C05_refused_changes_nothing.
+Print Assumptions C05_ex_vending_admin_succeeds_stranger_fails.
+Print Assumptions C05_ex_collection_history.
+Print Assumptions C05_ex_whitelist_history.
+Print Assumptions C05_ex_splits.
